@@ -31,6 +31,7 @@ Accept(e, c) ==
     [] e.op = "clone_from" -> PropCloneFrom(c, e.a, e.b, e.res)
     [] e.op = "fmt" -> PropDebug(c, e)
     [] e.op = "default" -> PropDefault(c, e)
+    [] e.op = "deref" -> PropDeref(c, e)
     [] OTHER -> FALSE
 
 TraceInit == l = 1 /\ bad = <<>> /\ learned = <<>>
